@@ -456,6 +456,19 @@ func genCase(r *rand.Rand, idx int) *Case {
 				tk[k] = true
 				s.Tags = append(s.Tags, [2]string{k, strings.ToValidUTF8(hostileOrSafe(r, p), "?")})
 			}
+			if s.PayloadType == 2 && r.Intn(3) == 0 {
+				// numeric attributes: 64-bit integers no double holds (ids, nanosecond clocks, offsets), and doubles
+				ints := []int64{1700000000123456789, 9007199254740993, -9007199254740993, math.MaxInt64, math.MinInt64, 0, -1, 404, 1 << 53, r.Int63()}
+				dbls := []float64{2.5e6, 0.1, 1e21, 5e-324, -0.0, 1.7976931348623157e308, 123456789.125, float64(r.Int63()) / 3}
+				for j := 0; j < 1+r.Intn(3); j++ {
+					k := fmt.Sprintf("num.%d", j)
+					if r.Intn(2) == 0 {
+						s.Nums = append(s.Nums, rdcat.NumTag{Key: k, Int: ints[r.Intn(len(ints))], IsInt: true})
+					} else {
+						s.Nums = append(s.Nums, rdcat.NumTag{Key: k, Dbl: dbls[r.Intn(len(dbls))]})
+					}
+				}
+			}
 			c.Spans = append(c.Spans, s)
 		}
 		c.Req = rdcat.Req{Method: "GET", Path: "/api/traces/" + tid}
